@@ -37,6 +37,9 @@ type SlowScen struct {
 	// passes during that wait. The scan runs after the deadline, so it hands flow 0 over, and
 	// re-arms it from the time it ran.
 	ScanWaits bool `json:"scan_waits,omitempty"`
+	// AllDue (with ManyDue): every flow's deadline had passed when the scan began, so the scan hands
+	// over every one of them, however long the callbacks take
+	AllDue bool `json:"all_due,omitempty"`
 }
 
 // SlowScens is the standard list.
@@ -49,6 +52,7 @@ func SlowScens() []SlowScen {
 		{Name: "first_record_of_another_flow_waits_for_a_slow_scan", ActiveMs: 60000, InactMs: 400, SleepMs: 700, RecordOther: true},
 		{Name: "callbacks_take_longer_than_the_active_timeout", ActiveMs: 150, InactMs: 60000, SleepMs: 100, ManyDue: true},
 		{Name: "scan_requested_while_a_slow_visitor_holds_the_process", ActiveMs: 400, InactMs: 60000, SleepMs: 600, ScanWaits: true},
+		{Name: "one_scan_whose_callbacks_take_seconds", ActiveMs: 60000, InactMs: 150, SleepMs: 1100, ManyDue: true, AllDue: true},
 	}
 }
 
@@ -143,7 +147,11 @@ func RunSlow(sc SlowScen) *ev.Failure {
 				return ev.Failf("%s: %v", sc.Name, err)
 			}
 		}
-		time.Sleep(time.Until(t0.Add(time.Duration(sc.ActiveMs)*time.Millisecond + 50*time.Millisecond)))
+		due := sc.ActiveMs
+		if sc.InactMs < due {
+			due = sc.InactMs
+		}
+		time.Sleep(time.Until(t0.Add(time.Duration(due)*time.Millisecond + 50*time.Millisecond)))
 		var mu sync.Mutex
 		seen := map[string]int{}
 		var order []string
@@ -173,6 +181,9 @@ func RunSlow(sc SlowScen) *ev.Failure {
 			if n > 1 {
 				return ev.Failf("%s: one expiry scan handed flow %s to the callback %d times (active timeout %d ms, callbacks of %v each; order %v): a flow is exported once per deadline", sc.Name, a, n, sc.ActiveMs, sleep, order)
 			}
+		}
+		if sc.AllDue && len(seen) != len(fl) {
+			return ev.Failf("%s: the deadlines of all %d flows had passed when the scan began; it handed over %d of them (%v, callbacks of %v each) and reported success", sc.Name, len(fl), len(seen), order, sleep)
 		}
 		if d := Structural(ap); d != "" {
 			return ev.Failf("%s: %s", sc.Name, d)
